@@ -50,7 +50,9 @@ fn run_c35(rep: &mut Report) {
         moves what the generated network-out closure emitted (bytes + addressee TaglessMemberId) to the generated \
         network-in stream of the member with that id, tagging with the sender id; oracle: each receiver's output \
         callback got exactly the sent values (compared as a multiset per receiver), nothing at non-addressed members, \
-        tag == sender id; MemberId <-> TaglessMemberId round trip over raw ids; sinktools::demux_map routes by key".into();
+        tag == sender id; MemberId <-> TaglessMemberId round trip over raw ids; sinktools::demux_map routes by key, also with \
+        scripted back-pressuring member sinks (Pending at every subset of <= 2 of each sink's first 3 poll_ready / 3 poll_flush \
+        calls): after send/flush completes every payload is in the addressed member's inbox, in order, nowhere else".into();
     rep.assume("values outside the boundary alphabet are not covered (bounded input enumeration)");
     rep.assume("the harness plays the transport (delivers by the emitted addressee id, tags with the sender id)");
     rep.assume("embedded deployment path (compile/embedded.rs); the deployed runtimes' socket layer is not exercised");
@@ -65,6 +67,7 @@ fn run_c35(rep: &mut Report) {
     let mut st = Stats::new();
     c35::demux_map_routing(&mut st, thorough);
     rep.section("demux_map_routing", st);
+    rep.section("demux_map_scripted_backpressure", c35::demux_map_scripted(thorough));
     let st = par_map(NETS.len(), ncpu().min(16), |i| {
         let mut st = Stats::new();
         let ctx = c35::NetCtx::new(thorough);
@@ -85,6 +88,9 @@ fn replay_c35(case: &Value) -> bool {
     match flow {
         "member_id" | "member_id_pairs" => c35::member_ids(&mut st),
         "demux_map" => c35::demux_map_routing(&mut st, true),
+        "demux_map_scripted" => {
+            return c35::replay_demux_scripted(&case["case"]);
+        }
         _ => {
             let n = NETS.iter().find(|n| n.id == flow).expect("unknown flow");
             let mut ctx = c35::NetCtx::new(true);
